@@ -408,17 +408,25 @@ pub fn c06_swap_oracle(pre: &Ledger, st: &Stepped, w: &StdWorld, a_to_b: bool, e
         return Err("hook H2 recorded no swap computation for a successful swap".into());
     }
     let o = observe_swap(pre, post, w, a_to_b, exact_in, amount, limit);
-    // what the trader pays is exactly curve amount + fee, and nothing else leaves their accounts
+    // what the trader pays is exactly curve amount + fee, and nothing else leaves their accounts. Where a mint withholds a transfer
+    // fee (Token-2022 worlds) the relation holds at the VAULTS — the pool receives curve amount + fee and gives out the curve output —
+    // and the trader's side differs from it by what the mint withheld (whose size is C16's subject, not this check's)
     let paid = &sum_in + &sum_fee;
-    if bu(o.trader_in as u128) != paid {
-        return Err(format!("trader was debited {} but curve input + fees = {} (in {}, fee {})", o.trader_in, paid, sum_in, sum_fee));
+    let withholds = pre.get(&w.pool.mint_a).map(|a| a.owner == world::T22).unwrap_or(false) || pre.get(&w.pool.mint_b).map(|a| a.owner == world::T22).unwrap_or(false);
+    if bu(o.vault_in as u128) != paid {
+        return Err(format!("the input vault received {} but curve input + fees = {} (in {}, fee {})", o.vault_in, paid, sum_in, sum_fee));
     }
-    if bu(o.trader_out as u128) != sum_out {
-        return Err(format!("trader was credited {} but curve output = {}", o.trader_out, sum_out));
+    if bu(o.vault_out as u128) != sum_out {
+        return Err(format!("the output vault gave out {} but curve output = {}", o.vault_out, sum_out));
     }
-    if o.vault_in != o.trader_in || o.vault_out != o.trader_out {
+    if withholds {
+        if o.trader_in < o.vault_in || o.trader_out > o.vault_out {
+            return Err(format!("vault deltas (+{} / -{}) against trader deltas (-{} / +{}): a transfer fee cannot be negative", o.vault_in, o.vault_out, o.trader_in, o.trader_out));
+        }
+    } else if o.vault_in != o.trader_in || o.vault_out != o.trader_out {
         return Err(format!("vault deltas (+{} / -{}) differ from trader deltas (-{} / +{})", o.vault_in, o.vault_out, o.trader_in, o.trader_out));
     }
+    let (tf_in, tf_out) = (o.trader_in - o.vault_in, o.vault_out - o.trader_out);
     let (owed0_in, owed1_in, owed0_out, owed1_out, g0_in, g1_in, g0_out, g1_out) = if a_to_b {
         (p0.protocol_fee_owed_a, p1.protocol_fee_owed_a, p0.protocol_fee_owed_b, p1.protocol_fee_owed_b, p0.fee_growth_global_a, p1.fee_growth_global_a, p0.fee_growth_global_b, p1.fee_growth_global_b)
     } else {
@@ -496,14 +504,14 @@ pub fn c06_swap_oracle(pre: &Ledger, st: &Stepped, w: &StdWorld, a_to_b: bool, e
         || e.a_to_b != a_to_b
         || e.pre_sqrt_price != p0.sqrt_price
         || e.post_sqrt_price != p1.sqrt_price
-        || bu(e.input_amount as u128) != paid
+        || e.input_amount != o.trader_in
         || bu(e.output_amount as u128) != sum_out
         || bu(e.lp_fee as u128) != lp
         || bu(e.protocol_fee as u128) != sum_cut
-        || e.input_transfer_fee != 0
-        || e.output_transfer_fee != 0
+        || e.input_transfer_fee != tf_in
+        || e.output_transfer_fee != tf_out
     {
-        return Err(format!("Traded event {e:?} does not match amounts moved: in {paid} out {sum_out} lp_fee {lp} protocol_fee {sum_cut} price {} -> {}", p0.sqrt_price, p1.sqrt_price));
+        return Err(format!("Traded event {e:?} does not match amounts moved: in {paid} (+ transfer fee {tf_in}) out {sum_out} (- transfer fee {tf_out}) lp_fee {lp} protocol_fee {sum_cut} price {} -> {}", p0.sqrt_price, p1.sqrt_price));
     }
     Ok(())
 }
@@ -515,7 +523,10 @@ pub fn c06_collect_protocol_oracle(pre: &Ledger, post: &Ledger, w: &StdWorld) ->
     let db = balance(post, &w.fee_dest.acct_b) - balance(pre, &w.fee_dest.acct_b);
     let va = balance(pre, &w.pool.vault_a) - balance(post, &w.pool.vault_a);
     let vb = balance(pre, &w.pool.vault_b) - balance(post, &w.pool.vault_b);
-    if da != p0.protocol_fee_owed_a || db != p0.protocol_fee_owed_b || va != da || vb != db {
+    // (a Token-2022 mint may withhold a transfer fee from what the destination receives: the vault side is then the exact one)
+    let t22 = |m: &solana_program::pubkey::Pubkey| pre.get(m).map(|a| a.owner == world::T22).unwrap_or(false);
+    let (ok_a, ok_b) = (if t22(&w.pool.mint_a) { da <= va } else { da == va }, if t22(&w.pool.mint_b) { db <= vb } else { db == vb });
+    if va != p0.protocol_fee_owed_a || vb != p0.protocol_fee_owed_b || !ok_a || !ok_b {
         return Err(format!("collect_protocol_fees paid {da}/{db} (vault -{va}/-{vb}) but {} / {} were owed", p0.protocol_fee_owed_a, p0.protocol_fee_owed_b));
     }
     if p1.protocol_fee_owed_a != 0 || p1.protocol_fee_owed_b != 0 {
